@@ -12,6 +12,7 @@ parses output lines into message records, renames routing tags by order of appea
 findings back to jobs."""
 import json
 import multiprocessing
+from . import core as _core
 import os
 import re
 import shutil
@@ -429,8 +430,7 @@ def replay_svc(ctx, jobs, nproc=12, tag="rs"):
     args = [(_bargs(ctx), os.path.join(ctx.scratch, "%s-w%d" % (tag, n)), ch, names, tag) for n, ch in enumerate(chunks)]
     if nproc == 1:
         return [_svc_worker(args[0])]
-    with multiprocessing.Pool(nproc) as pool:
-        return pool.map(_svc_worker, args)
+    return _core.pool_map(_svc_worker, args, nproc)
 
 
 # ---- validation (TLC is the oracle) -------------------------------------------------------------------------------
@@ -703,8 +703,7 @@ def replay_cls(ctx, jobs, nproc=12, tag="rc"):
     args = [(_bargs(ctx), os.path.join(ctx.scratch, "%s-w%d" % (tag, n)), ch, tag) for n, ch in enumerate(chunks)]
     if nproc == 1:
         return [_cls_worker(args[0])]
-    with multiprocessing.Pool(nproc) as pool:
-        return pool.map(_cls_worker, args)
+    return _core.pool_map(_cls_worker, args, nproc)
 
 
 def validate_cls(ctx, results, nthreads=8):
